@@ -163,6 +163,23 @@ CLAIMED = {
              "findings: per-axis scaled() under rotated nodes; subscene drops the root node's own instance. One "
              "defect repaired (area / volume ignored instance scale).",
         technique="Lean 4 proof (order folds + affine identities) + differential correspondence"),
+    "C11": dict(
+        category="proof", design_ref="DESIGN.md 5 C11",
+        text="Lean 4 theorems over any linearly ordered field about an executable model of the sign coding used by "
+             "intersections.mesh_plane / slice_faces_plane: the code (sum of signs weighted 1,3,9 -> case table) is "
+             "injective on the 27 sign patterns and the model's case table classifies each one correctly (all 27 "
+             "decided by the kernel); each emitted crossing point lies on the plane and between the two endpoints of "
+             "its edge; a segment with both ends on the plane and on a triangle lies on both; the positive pieces "
+             "of the two opposite slices of a triangle tile it (areas add up) and, by the divergence identity of "
+             "C03, capped halves add up in volume. Tied to the code by a differential run: meshes with dyadic "
+             "coordinates cut by integer planes through vertices / along edges / in general position, several "
+             "planes, face subsets, every cap engine; endpoints on plane and surface, closed loops, areas and "
+             "volumes add up, convex halves watertight, multiplane = repeated single plane.",
+        note="Trusted: Lean kernel (+propext/Classical.choice/Quot.sound), float64 on dyadic inputs, shapely / "
+             "earcut / triangle (polygon assembly and cap triangulation are judged by their outputs, not "
+             "modelled), nearest.on_surface as surface membership test. Partial: loop assembly and capping are "
+             "checked by correspondence only.",
+        technique="Lean 4 proof (sign-pattern table by kernel decision + ordered-field lemmas) + differential correspondence"),
     "C17": dict(
         category="proof", design_ref="DESIGN.md 5 C17",
         text="Lean 4 theorems over a heap of mutable cells: a sound disjointness checker; the frame theorem (if the "
